@@ -81,7 +81,7 @@ PROPS["C03"] = {
     ],
     "require_classes": {"quick": ["add_inf_inf", "add_inf_p", "add_p_inf", "add_p_p", "add_p_negp", "add_generic", "add_inf_altrep",
                                   "z_not_one", "alias_recv", "alias_all", "mixed_p_p", "mixed_p_negp", "mixed_inf", "dbl_inf",
-                                  "equal_true_diffrep", "equal_neg", "equal_inf_inf", "equal_p_inf", "yodd", "yeven", "enc_inf",
+                                  "equal_true_diffrep", "equal_neg", "equal_same_y", "equal_inf_inf", "equal_p_inf", "yodd", "yeven", "enc_inf",
                                   "chain_step"]},
     "assumptions": [
         "full-size group operations are sampled (steered representatives and relations, exact TLA+ oracle); exhaustiveness is on miniature curves",
@@ -248,7 +248,7 @@ PROPS["C10"] = {
     "exhaustive": _ECDSA_A[:1] + [{"spec": "MC_Sec1", "params": "mini211", "env": {"VERIF_MCFULL": "1"}}],
     "drivers": [{"driver": "keys", "trace": "Trace_Ecdsa"}],
     "require_classes": {"quick": ["priv_ok", "priv_zero", "priv_ge_n", "priv_badlen", "pub_ok_unc", "pub_ok_cmp", "pub_identity", "pub_invalid",
-                                  "pub_twist", "ecdh_ok", "ecdh_edge"]},
+                                  "pub_twist", "ecdh_ok", "ecdh_edge", "key_immutable"]},
     "assumptions": ["full-size keys are sampled per class with an exact oracle"],
 }
 
@@ -332,7 +332,7 @@ PROPS["C14"] = {
     "drivers": [{"driver": "schnorr", "trace": "Trace_Schnorr"}],
     "require_classes": {"quick": ["sign_P_even_R_even", "sign_P_even_R_odd", "sign_P_odd_R_even", "sign_P_odd_R_odd", "aux_zero", "aux_ones",
                                   "sign_public_api", "sign_reader_fail", "from_point_odd", "from_point_even", "from_point_inf", "from_point_altrep",
-                                  "from_ecdsa", "self_verify", "msg_len_0", "msg_len_odd", "msg_len_long", "vector"]},
+                                  "from_ecdsa", "self_verify", "immutable", "msg_len_0", "msg_len_odd", "msg_len_long", "vector"]},
     "assumptions": ["k' = 0 (a 2^-256 event) is covered only by the model"],
 }
 
